@@ -52,6 +52,20 @@ type sgen struct {
 	n        int
 	forData  bool // C18: mandatory / defaults / min-max / unique are generated
 	maxDepth int
+	withCfg  bool // C20 / C14: config and status statements are generated
+}
+
+// config / status statements on a data definition
+func (g *sgen) cfgStatus(n map[string]any, allowCfg bool) {
+	if !g.withCfg {
+		return
+	}
+	if allowCfg && g.r.Chance(22) {
+		n["config"] = g.r.Chance(90) == false // mostly config false; sometimes an explicit config true
+	}
+	if g.r.Chance(8) {
+		n["status"] = pick(g.r, []string{"current", "current", "deprecated", "obsolete"})
+	}
 }
 
 func (g *sgen) name(kind string) string { g.n++; return fmt.Sprintf("%s%d", kind, g.n) }
@@ -92,10 +106,12 @@ func (g *sgen) genNode(depth int, inChoice bool) map[string]any {
 	switch {
 	case k < 22:
 		n := map[string]any{"k": "container", "n": g.name("c"), "presence": g.r.Chance(35)}
+		g.cfgStatus(n, true)
 		n["kids"] = g.genKids(depth+1, false)
 		return n
 	case k < 37:
 		n := map[string]any{"k": "list", "n": g.name("l")}
+		g.cfgStatus(n, true)
 		keyLeaf := map[string]any{"k": "leaf", "n": g.name("k"), "type": g.leafType(true)}
 		kids := []any{keyLeaf}
 		kids = append(kids, g.genKids(depth+1, false)...)
@@ -118,10 +134,12 @@ func (g *sgen) genNode(depth int, inChoice bool) map[string]any {
 		return n
 	case k < 55:
 		n := map[string]any{"k": "choice", "n": g.name("ch")}
+		g.cfgStatus(n, true)
 		nc := 1 + g.r.Intn(3)
 		var cases []any
 		for i := 0; i < nc; i++ {
 			ca := map[string]any{"k": "case", "n": g.name("ca")}
+			g.cfgStatus(ca, false)
 			ca["kids"] = g.genKids(depth+1, true)
 			cases = append(cases, ca)
 		}
@@ -136,6 +154,7 @@ func (g *sgen) genNode(depth int, inChoice bool) map[string]any {
 		return n
 	case k < 88:
 		n := map[string]any{"k": "leaf", "n": g.name("f"), "type": g.leafType(false)}
+		g.cfgStatus(n, true)
 		if g.forData {
 			ty := n["type"].(map[string]any)
 			if g.r.Chance(25) {
@@ -148,6 +167,7 @@ func (g *sgen) genNode(depth int, inChoice bool) map[string]any {
 		return n
 	default:
 		n := map[string]any{"k": "leaf-list", "n": g.name("ll"), "type": g.leafType(true)}
+		g.cfgStatus(n, true)
 		if g.forData {
 			if g.r.Chance(30) {
 				n["min"] = 1 + g.r.Intn(2)
@@ -210,17 +230,28 @@ func renderType(t map[string]any) string {
 	return "type " + name + " {" + body.String() + " }"
 }
 
+func cfgStatusStmts(n map[string]any) string {
+	s := ""
+	if v, ok := n["config"].(bool); ok {
+		s += fmt.Sprintf(" config %v;", v)
+	}
+	if v, ok := n["status"].(string); ok {
+		s += " status " + v + ";"
+	}
+	return s
+}
+
 func renderNode(b *strings.Builder, n map[string]any, ind string) {
 	kind := cstr(n, "k")
 	name := cstr(n, "n")
 	switch kind {
 	case "container":
-		b.WriteString(ind + "container " + name + " {\n")
+		b.WriteString(ind + "container " + name + " {" + cfgStatusStmts(n) + "\n")
 		if cbool(n, "presence") {
 			b.WriteString(ind + "  presence \"p\";\n")
 		}
 	case "list":
-		b.WriteString(ind + "list " + name + " {\n")
+		b.WriteString(ind + "list " + name + " {" + cfgStatusStmts(n) + "\n")
 		var ks []string
 		for _, k := range carr(n, "keys") {
 			ks = append(ks, k.(string))
@@ -243,7 +274,7 @@ func renderNode(b *strings.Builder, n map[string]any, ind string) {
 			b.WriteString(ind + "  unique " + yq(strings.Join(ps, " ")) + ";\n")
 		}
 	case "leaf":
-		b.WriteString(ind + "leaf " + name + " { " + renderType(cmap(n, "type")))
+		b.WriteString(ind + "leaf " + name + " { " + renderType(cmap(n, "type")) + cfgStatusStmts(n))
 		if cbool(n, "mandatory") {
 			b.WriteString(" mandatory true;")
 		}
@@ -253,7 +284,7 @@ func renderNode(b *strings.Builder, n map[string]any, ind string) {
 		b.WriteString(" }\n")
 		return
 	case "leaf-list":
-		b.WriteString(ind + "leaf-list " + name + " { " + renderType(cmap(n, "type")))
+		b.WriteString(ind + "leaf-list " + name + " { " + renderType(cmap(n, "type")) + cfgStatusStmts(n))
 		if _, ok := n["min"]; ok {
 			fmt.Fprintf(b, " min-elements %d;", cint(n, "min"))
 		}
@@ -266,7 +297,7 @@ func renderNode(b *strings.Builder, n map[string]any, ind string) {
 		b.WriteString(" }\n")
 		return
 	case "choice":
-		b.WriteString(ind + "choice " + name + " {\n")
+		b.WriteString(ind + "choice " + name + " {" + cfgStatusStmts(n) + "\n")
 		if cbool(n, "mandatory") {
 			b.WriteString(ind + "  mandatory true;\n")
 		}
@@ -274,7 +305,7 @@ func renderNode(b *strings.Builder, n map[string]any, ind string) {
 			b.WriteString(ind + "  default " + d + ";\n")
 		}
 	case "case":
-		b.WriteString(ind + "case " + name + " {\n")
+		b.WriteString(ind + "case " + name + " {" + cfgStatusStmts(n) + "\n")
 	}
 	for _, k := range carr(n, "kids") {
 		renderNode(b, k.(map[string]any), ind+"  ")
